@@ -110,8 +110,8 @@ func runPlan(t *testing.T, def *PropDef, p *Plan) (res *Result) {
 // noteCurrentPlan records the plan about to run next to the result file: if the Go runtime kills the process
 // (a fatal error cannot be recovered), the driver knows which plan did it.
 func noteCurrentPlan(outPath string, p *Plan, k int) {
-	if outPath == "" {
-		return
+	if outPath == "" || !(p.Prop == "C12" || p.Prop == "C15" || p.Prop == "C16") {
+		return // only the properties for which a death of the worker is a verdict need it (one file write per plan)
 	}
 	b, err := json.Marshal(map[string]any{"plan": p, "k": k})
 	if err == nil {
@@ -220,8 +220,8 @@ func TestSim(t *testing.T) {
 		noteCurrentPlan(outPath, p, 0)
 		res := runPlan(t, def, p)
 		attachRaces(res)
-		if time.Since(t0) > 90*time.Second {
-			out.Infra = append(out.Infra, fmt.Sprintf("run %d exceeded the 90 s real-time watchdog", idx))
+		if time.Since(t0) > 240*time.Second {
+			out.Infra = append(out.Infra, fmt.Sprintf("run %d exceeded the 240 s real-time watchdog", idx))
 		}
 		out.Runs++
 		out.SimSecs += res.SimSecs
